@@ -36,8 +36,10 @@ def make_req(group, ident, issuances, with_git, port=None, defaulted=(), key_typ
     cert_hooks = [group] + (["git"] if with_git else [])
     decoy = {k: {"HTTP_ROOT": "@DIR@/decoy/www", "TACD_PID_ROOT": "@DIR@/decoy/pid", "TACD_SOCK_ROOT": "@DIR@/decoy/sock", "TACD_PORT": str(decoy_port), "TACD_HOST": "127.0.0.2"}[k]
              for k in env}
-    id_entry = {"dns": ident, "challenge": challenge}
-    cert_entry = {"endpoint": "ep0", "account": "acc0", "identifiers": [id_entry], "key_type": key_type, "hooks": cert_hooks}
+    # "a+b": one certificate with several identifiers (validated one after the other with the same variables)
+    id_entries = [{"dns": d, "challenge": challenge} for d in ident.split("+")]
+    id_entry = id_entries[0]
+    cert_entry = {"endpoint": "ep0", "account": "acc0", "identifiers": id_entries, "key_type": key_type, "hooks": cert_hooks}
     genv = env
     if level == "certificate":
         cert_entry["env"] = env
@@ -153,7 +155,7 @@ def run(ctx):
     res = Result("model_checking")
     res.rule = ("E5: the real default_hooks.toml of the working tree, real mkdir/echo/chmod/rm/pkill/git and the release tacd, a CA that really validates (reads the http-01 file at "
                 "the documented path; performs the acme-tls/1 handshake on the documented address or socket): groups {http-01-echo, tls-alpn-01-tacd-tcp, tls-alpn-01-tacd-unix} "
-                "x {alone, +git on account and certificate} x identifiers of 1..3 labels x 1..2 (quick) / 1..3 (thorough) consecutive issuances, variables set to scratch paths "
+                "x {alone, +git on account and certificate} x identifiers of 1..3 labels (and certificates of two and three identifiers) x 1..2 (quick) / 1..3 (thorough) consecutive issuances, variables set to scratch paths "
                 "and TACD_HOST/TACD_PORT defaulted; variables set in [global], on the certificate or on the identifier with decoy values at the wider levels and in the daemon's environment. A state is (group, variables, issuance number); after each history leftovers and the git log are inspected.")
     maxk = 2 if ctx.quick else 3
     reqs = []
@@ -179,6 +181,10 @@ def run(ctx):
     # TACD_HOST in the other address forms a listener accepts: IPv6 literal, host name, wildcard address
     for host in ("[::1]", "localhost", "0.0.0.0"):
         reqs.append(make_req("tls-alpn-01-tacd-tcp", "a.example", 2, False, port=bb.free_port(), host=host))
+    # certificates with two and three identifiers: the responder / proof of one identifier must be gone before the next one needs the address
+    for group in ("http-01-echo", "tls-alpn-01-tacd-tcp", "tls-alpn-01-tacd-unix"):
+        reqs.append(make_req(group, "a.example+b.a.example", 2, False, port=bb.free_port()))
+        reqs.append(make_req(group, "localhost+a.example+b.a.example", 1, group == "http-01-echo", port=bb.free_port()))
     # the same variables set on the certificate or on the identifier (as in the manual's TACD_PORT example), decoy values at the wider levels
     for level in ("certificate", "identifier"):
         for group in ("http-01-echo", "tls-alpn-01-tacd-tcp", "tls-alpn-01-tacd-unix"):
